@@ -107,5 +107,33 @@ pub mod memchr_lemmas {
             }
         }
     }
+
+    /// the occurrences before offset o are a prefix of all occurrences
+    pub proof fn lemma_positions_prefix(c: u8, s: Seq<u8>, o: int, m: int)
+        requires 0 <= o <= s.len(), 0 <= m <= positions(c, s).len(),
+            forall|k: int| 0 <= k < m ==> (#[trigger] positions(c, s)[k]) < o,
+            forall|k: int| m <= k < positions(c, s).len() ==> (#[trigger] positions(c, s)[k]) >= o,
+        ensures positions(c, s.take(o)) == positions(c, s).take(m),
+    {
+        let pos = positions(c, s);
+        let y = pos.take(m);
+        let t = s.take(o);
+        lemma_positions_sound(c, s);
+        assert forall|k: int| 0 <= k < y.len() implies 0 <= (#[trigger] y[k]) < t.len() && t[y[k]] == c by {
+            assert(y[k] == pos[k]);
+            assert(s[pos[k]] == c);
+        }
+        assert forall|j: int, k: int| 0 <= j < k < y.len() implies (#[trigger] y[j]) < (#[trigger] y[k]) by {
+            assert(y[j] == pos[j] && y[k] == pos[k]);
+        }
+        assert forall|i: int| 0 <= i < t.len() && (#[trigger] t[i]) == c implies y.contains(i) by {
+            assert(s[i] == c);
+            assert(pos.contains(i));
+            let k = choose|k: int| 0 <= k < pos.len() && pos[k] == i;
+            if k >= m { assert(pos[k] >= o); }
+            assert(y[k] == i);
+        }
+        lemma_positions_unique(c, t, y);
+    }
 }
 pub use memchr_lemmas::*;
